@@ -109,6 +109,50 @@ def e2_replay(v, m):
     return concrete_outcome(v, m) in ("return", "raise:ValidationError")
 
 
+def e2_replay_number(v):
+    from vf.e2 import number_construct_concrete
+
+    return number_construct_concrete(v) in ("return", "raise:ValidationError")
+
+
+SPECIAL_NAMES = sorted(set(dir(type("_Plain", (), {})())) | {
+    "__slots__", "__annotations__", "__qualname__", "__name__", "__mro__", "__bases__", "__orig_bases__", "__properties__", "__items__",
+    "_dict", "properties", "default", "validators", "inline", "python", "required", "additionalProperties", "annotation", "type_validator",
+    "description", "const", "enum", "self", "cls", "value", "_property", "mro", "__call__", "__getitem__", "__iter__", "__len__", "__contains__"})
+
+
+def special_name_ok(i, x, typed):
+    """a property with a Python-special name: parsing and validating never crash; the member survives"""
+    from vf.common import parse_s, outcome_kind
+
+    name = SPECIAL_NAMES[i % len(SPECIAL_NAMES)]
+    S = {"properties": {name: {"type": "integer", "minimum": 0}}, "required": [name]}
+    if typed:
+        S.update({"type": "object", "title": "T"})
+    if not parse_total(S):
+        return False
+    el = parse_s(S)
+    for v in ({name: x}, {name: {}}, {}, {name: x, "other": x}):
+        if outcome_kind(el, v) not in ("ok", "ValidationError", "TypeError"):
+            return False
+    if x >= 0:
+        try:
+            r = el({name: x})
+        except Exception:  # noqa
+            return False
+        py = [k for k, p in el.properties.items() if p.source == name]
+        if len(py) != 1:
+            return False
+        got = r[py[0]]
+        if got != x:
+            return False
+        try:
+            repr(r)
+        except Exception:  # noqa
+            return False
+    return True
+
+
 def harnesses(ctx) -> List[H]:
     hs: List[H] = []
     for name, (hargs, pre, S) in GROUPS.items():
@@ -131,6 +175,11 @@ def harnesses(ctx) -> List[H]:
     hs.append(mk("c10_format_runlength", "n: int, i: int", ["0 <= n <= 64", "0 <= i < 8"],
                  'c = ("9", "a", "-", ":", "T", "+", ".", " ")[i]\nreturn total(parse_s({"format": "date-time"}), c * n) and total(parse_s({"format": "uuid"}), c * n) and total(parse_s({"format": "date-time"}), "2020-01-01T00:00:00." + c * n)',
                  timeout=400, group="format", covers="run-length dimension: repeated characters up to 64 (reaches the >= 20-digit dateutil overflow)"))
+    hs.append(mk("c10_format_runlength_prefixed", "p: int, n: int, i: int", ["0 <= p < 8", "0 <= n <= 40", "0 <= i < 4"],
+                 'pre = ("12:", "12:30:", "2020-01-01T00:00:", "1-", "T", "2020-", "1e", "0.")[p]\nc = ("9", "0", ".", "1")[i]\nreturn total(parse_s({"format": "date-time"}), pre + c * n) and total(parse_s({"format": "uuid"}), pre + c * n)',
+                 timeout=400, group="format", covers="run lengths up to 40 after 8 date/time-like prefixes"))
+    hs.append(mk("c10_special_property_names", "i: int, x: int, typed: bool", [f"0 <= i < {len(SPECIAL_NAMES)}"], "return special_name_ok(i, x, typed)", timeout=300, group="names",
+                 covers="property names that are Python-special attribute names (dunder names of plain instances, names used by the model machinery)"))
     # unhashable / nested items
     hs.append(mk("c10_unique_scalars", "u: bool, v: Union[int, str, List[Union[int, bool]]]", ["not isinstance(v, str) or len(v) <= 1", "not isinstance(v, list) or len(v) <= 3"],
                  'return total(parse_s({"uniqueItems": u}), v)', timeout=200, group="arrays"))
@@ -168,6 +217,10 @@ def extra_checks(ctx):
         out["harness_errors"].append(f"E2 translator disagrees with the real function on {bad[:3]}")
         return out
     res = e2.totality_obligations(90 if ctx.tier == "quick" else 300)
+    try:
+        res += e2.number_construct_obligations()
+    except e2.Unsupported as exc:
+        out["harness_errors"].append(f"E2 encoding not applicable to current source of Number.construct: {exc}")
     out["report"]["totality"] = res
     for r in res:
         out["obligations"] += 1
@@ -180,7 +233,10 @@ def extra_checks(ctx):
                 d = "/verif/replays/C10"
                 os.makedirs(d, exist_ok=True)
                 path = os.path.join(d, "e2-%s.json" % abs(hash(r["query"])))
-                call = "e2_replay(%s, %s)" % (r["counterexample"]["value"], r["counterexample"]["multipleOf"])
+                if "multipleOf" in r["counterexample"]:
+                    call = "e2_replay(%s, %s)" % (r["counterexample"]["value"], r["counterexample"]["multipleOf"])
+                else:
+                    call = "e2_replay_number(%s)" % (r["counterexample"]["value"],)
                 with open(path, "w") as fh:
                     json.dump({"property": "C10", "harness": "e2", "call": call, "detail": r}, fh, indent=1)
                 out["violations"].append(("e2:" + r["query"], path, f"{call} -> {r['replay']}"))
@@ -201,4 +257,23 @@ def _demo_datetime_overflow():
     return not total(parse_s({"format": "date-time"}), "9" * 25)
 
 
-DEMOS = {"C10-multipleof-overflow": _demo_multipleof_overflow, "C10-datetime-overflow": _demo_datetime_overflow}
+def _demo_number_overflow():
+    return not e2_replay_number(10 ** 400)
+
+
+def _demo_datetime_decimal():
+    from vf.common import parse_s
+
+    return not total(parse_s({"format": "date-time"}), "12:" + "9" * 30)
+
+
+def _demo_dunder_names():
+    from vf.common import parse_s
+
+    return not (total(parse_s({"type": "object", "title": "T", "properties": {"__dict__": {}}}), {"__dict__": {}})
+                and total(parse_s({"type": "object", "title": "T", "properties": {"__weakref__": {}}}), {"__weakref__": 1}))
+
+
+DEMOS = {"C10-multipleof-overflow": _demo_multipleof_overflow, "C10-datetime-overflow": _demo_datetime_overflow,
+         "C10-number-float-overflow": _demo_number_overflow, "C10-datetime-decimal": _demo_datetime_decimal,
+         "C10-dunder-property-names": _demo_dunder_names}
